@@ -1,25 +1,45 @@
 import AndaVerif.Model.Hnsw
+import AndaVerif.Model.HnswStore
 import AndaVerif.Drv.Util
 /-
 Driver of the C12 model. Lines:
   reset
-  node <id> <layer> <l0>;<l1>;…        one graph node; each `l` is a csv of neighbour ids or `-`
+  node <id> <layer> <l0>;<l1>;…        one graph node; each `l` is a csv of neighbour ids or `-`; `!` = no lists
   del <id>                               drop a node from the map
   entry <id> <layer>                     entry point
+  ids <csv> / removed <csv> / dirty <csv>
+  ver <version> <saved> <maxLayer> <maxLayers>
   dist <id>:<key> <id>:<key> …           distance keys of the current query (replaces the table)
   search <k> <efSearch> [f32|bf16 <finite 0|1> <dimok 0|1>]
                                          → `ok id:key,id:key,…` | `err:notfound <id>` | `err:…`
   layer <ep> <layer> <ef>                raw `search_layer` (diagnostic)
+  edit <id> <layer> <lists>              a neighbour rewritten by the next insert (accumulated)
+  insert <id> <layer> <lists> <pick id> <pick layer> <valid 0|1> [<print lists 0|1>]
+                                         → `<true|false> <state>` (bookkeeping of `insert`; the new node and the edits are inputs)
+  remove <id> <pick id> <pick layer> <reconnect 0|1>
+                                         → `<true|false> <state>`; with reconnect the node lists are not printed
+  capture                                → `some <tags>` | `none`: snapshot of the current index (`capture_flush_snapshot`)
+  wwrite                                 → the next write of the snapshot becomes durable
+  wfinish <lists 0|1>                    → remaining writes, then `commit`; prints the state
+  durable                                → `ids=… meta=… blobs=<key:id:layer:dimok:finite:lists|…>`
+  writes                                 → tags of `wrapperWrites` (`n<id>`, `ids`, `meta`, `d<id>`)
+  dreset / dput <key> <blob id> <layer> <dimok> <finite> <lists> / dids <csv>|none /
+  dmeta <entry id> <entry layer> <version> <maxLayer> <maxLayers> <removed csv> | dmeta none
+  load <pick id> <pick layer>            → `ok <state>` | `err:load` ; the loaded index becomes the state
   consts
+<state> = e=<id>,<layer> ml=<maxLayer> v=<version> pending=<0|1> ids=<csv> rm=<csv> dirty=<csv of dirty ids that have a live node> nodes=<id:layer:lists|…>
 -/
 open AndaVerif.Hnsw AndaVerif.Drv
 
 namespace AndaVerif.DrvC12
 
 structure St where
-  nodes : NodeMap := []
-  entry : Nat × Nat := (0, 0)
+  ix : Index := {}
+  dur : Durable := {}
   dist : List (Nat × Nat) := []
+  edits : List (Nat × Node) := []
+  snap : Option Snapshot := none
+  pendingW : List Write := []
 
 def lookupDist (t : List (Nat × Nat)) (i : Nat) : Option Nat :=
   match t with
@@ -45,42 +65,169 @@ def showRes : Except Err (List Ent) → String
   | .error .dimension => "err:dimension"
   | .error .fuel => "err:fuel"
 
+def insSorted (x : Nat) : List Nat → List Nat
+  | [] => [x]
+  | y :: r => if x < y then x :: y :: r else if x = y then y :: r else y :: insSorted x r
+
+/-- ascending, duplicate-free (set semantics of the bitmap / BTreeSets) -/
+def sortSet (l : List Nat) : List Nat := l.foldr insSorted []
+
+def insNode (p : Nat × Node) : List (Nat × Node) → List (Nat × Node)
+  | [] => [p]
+  | q :: r => if p.1 < q.1 then p :: q :: r else q :: insNode p r
+
+def showLists (n : List (List Nat)) : String :=
+  if n.isEmpty then "!" else ";".intercalate (n.map showNats)
+
+def showNodes (m : NodeMap) (withLists : Bool) : String :=
+  let sorted := m.foldr insNode []
+  if sorted.isEmpty then "-"
+  else "|".intercalate (sorted.map (fun p =>
+    if withLists then s!"{p.1}:{p.2.layer}:{showLists p.2.nbrs}" else s!"{p.1}:{p.2.layer}"))
+
+def showState (s : Index) (withLists : Bool) : String :=
+  s!"e={s.entry.1},{s.entry.2} ml={s.maxLayer} v={s.version} pending={if s.savedVersion < s.version then 1 else 0} " ++
+  s!"ids={showNats (sortSet s.ids)} rm={showNats (sortSet s.removed)} " ++
+  s!"dirty={showNats (sortSet (s.dirty.filter (fun i => (getNode s.nodes i).isSome)))} " ++
+  s!"nodes={showNodes s.nodes withLists}"
+
+def showBlobs (bs : List (Nat × Blob)) : String :=
+  let ins (p : Nat × Blob) : List (Nat × Blob) → List (Nat × Blob) := fun l =>
+    let rec go : List (Nat × Blob) → List (Nat × Blob)
+      | [] => [p]
+      | q :: r => if p.1 < q.1 then p :: q :: r else q :: go r
+    go l
+  let sorted := bs.foldr ins []
+  if sorted.isEmpty then "-"
+  else "|".intercalate (sorted.map (fun p =>
+    s!"{p.1}:{p.2.id}:{p.2.layer}:{if p.2.dimOk then 1 else 0}:{if p.2.finite then 1 else 0}:{showLists p.2.nbrs}"))
+
+def showDurable (d : Durable) : String :=
+  let ids := match d.ids with | some l => showNats (sortSet l) | none => "none"
+  let mt := match d.metaObj with
+    | some m => s!"{m.entry.1},{m.entry.2},{m.version},{m.maxLayer},{m.maxLayers},{showNats (sortSet m.removed)}"
+    | none => "none"
+  s!"ids={ids} meta={mt} blobs={showBlobs d.blobs}"
+
+def writeTag : Write → String
+  | .node i _ => s!"n{i}"
+  | .ids _ => "ids"
+  | .metaPut _ => "meta"
+  | .del i => s!"d{i}"
+
 def step (s : St) (line : String) : St × String :=
   match words line with
   | ["reset"] => ({}, "ok")
   | ["node", id, layer, lists] =>
       match id.toNat?, layer.toNat?, parseLists lists with
       | some id, some layer, some ls =>
-          ({ s with nodes := (id, ⟨layer, ls⟩) :: s.nodes.filter (fun p => p.1 != id) }, "ok")
+          ({ s with ix := { s.ix with nodes := (id, ⟨layer, ls⟩) :: s.ix.nodes.filter (fun p => p.1 != id) } }, "ok")
       | _, _, _ => (s, "bad-op")
   | ["del", id] =>
       match id.toNat? with
-      | some id => ({ s with nodes := s.nodes.filter (fun p => p.1 != id) }, "ok")
+      | some id => ({ s with ix := { s.ix with nodes := s.ix.nodes.filter (fun p => p.1 != id) } }, "ok")
       | none => (s, "bad-op")
   | ["entry", id, layer] =>
       match id.toNat?, layer.toNat? with
-      | some id, some layer => ({ s with entry := (id, layer) }, "ok")
+      | some id, some layer => ({ s with ix := { s.ix with entry := (id, layer) } }, "ok")
       | _, _ => (s, "bad-op")
+  | ["ids", csv] =>
+      match natList? csv with
+      | some l => ({ s with ix := { s.ix with ids := l } }, "ok")
+      | none => (s, "bad-op")
+  | ["removed", csv] =>
+      match natList? csv with
+      | some l => ({ s with ix := { s.ix with removed := l } }, "ok")
+      | none => (s, "bad-op")
+  | ["dirty", csv] =>
+      match natList? csv with
+      | some l => ({ s with ix := { s.ix with dirty := l } }, "ok")
+      | none => (s, "bad-op")
+  | ["ver", v, sv, ml, mls] =>
+      match v.toNat?, sv.toNat?, ml.toNat?, mls.toNat? with
+      | some v, some sv, some ml, some mls =>
+          ({ s with ix := { s.ix with version := v, savedVersion := sv, maxLayer := ml, maxLayers := mls } }, "ok")
+      | _, _, _, _ => (s, "bad-op")
   | "dist" :: pairs =>
       match pairs.mapM parsePair with
       | some t => ({ s with dist := t }, "ok")
       | none => (s, "bad-op")
   | ["search", k, ef] =>
       match k.toNat?, ef.toNat? with
-      | some k, some ef => (s, showRes (searchF32 s.nodes s.entry (lookupDist s.dist) k ef true true))
+      | some k, some ef => (s, showRes (searchF32 s.ix.nodes s.ix.entry (lookupDist s.dist) k ef true true))
       | _, _ => (s, "bad-op")
   | ["search", k, ef, which, fin, dim] =>
       match k.toNat?, ef.toNat? with
       | some k, some ef =>
           let fin := fin == "1"
           let dim := dim == "1"
-          if which == "bf16" then (s, showRes (searchBf16 s.nodes s.entry (lookupDist s.dist) k ef fin dim))
-          else (s, showRes (searchF32 s.nodes s.entry (lookupDist s.dist) k ef fin dim))
+          if which == "bf16" then (s, showRes (searchBf16 s.ix.nodes s.ix.entry (lookupDist s.dist) k ef fin dim))
+          else (s, showRes (searchF32 s.ix.nodes s.ix.entry (lookupDist s.dist) k ef fin dim))
       | _, _ => (s, "bad-op")
   | ["layer", ep, layer, ef] =>
       match ep.toNat?, layer.toNat?, ef.toNat? with
-      | some ep, some layer, some ef => (s, showRes (searchLayer s.nodes (lookupDist s.dist) ep layer ef))
+      | some ep, some layer, some ef => (s, showRes (searchLayer s.ix.nodes (lookupDist s.dist) ep layer ef))
       | _, _, _ => (s, "bad-op")
+  | ["remove", id, pid, pl, rc] =>
+      match id.toNat?, pid.toNat?, pl.toNat? with
+      | some id, some pid, some pl =>
+          let r := remove s.ix id (pid, pl) (fun _ _ l => l)
+          ({ s with ix := r.1 }, s!"{r.2} {showState r.1 (rc != "1")}")
+      | _, _, _ => (s, "bad-op")
+  | ["edit", id, layer, lists] =>
+      match id.toNat?, layer.toNat?, parseLists lists with
+      | some id, some layer, some ls => ({ s with edits := (id, ⟨layer, ls⟩) :: s.edits }, "ok")
+      | _, _, _ => (s, "bad-op")
+  | "insert" :: id :: layer :: lists :: pid :: pl :: valid :: rest =>
+      match id.toNat?, layer.toNat?, parseLists lists, pid.toNat?, pl.toNat? with
+      | some id, some layer, some ls, some pid, some pl =>
+          let r := insertAbs s.ix id ⟨layer, ls⟩ s.edits (pid, pl) (valid == "1")
+          ({ s with ix := r.1, edits := [] }, s!"{r.2} {showState r.1 (rest != ["0"])}")
+      | _, _, _, _, _ => (s, "bad-op")
+  | ["capture"] =>
+      match capture s.ix with
+      | some sn => ({ s with snap := some sn, pendingW := sn.writes },
+                    "some " ++ (if sn.writes.isEmpty then "-" else ",".intercalate (sn.writes.map writeTag)))
+      | none => ({ s with snap := none, pendingW := [] }, "none")
+  | ["wwrite"] =>
+      match s.pendingW with
+      | [] => (s, "none")
+      | w :: r => ({ s with dur := applyWrite s.dur w, pendingW := r }, "ok " ++ writeTag w)
+  | ["wfinish", lists] =>
+      let d := applyWrites s.dur s.pendingW
+      let ix := match s.snap with
+        | some sn => commit s.ix sn
+        | none => s.ix
+      ({ s with dur := d, ix := ix, pendingW := [], snap := none }, showState ix (lists == "1"))
+  | ["durable"] => (s, showDurable s.dur)
+  | ["writes"] =>
+      let ws := wrapperWrites s.ix
+      (s, if ws.isEmpty then "-" else ",".intercalate (ws.map writeTag))
+  | ["dreset"] => ({ s with dur := {} }, "ok")
+  | ["dput", key, bid, layer, dimok, fin, lists] =>
+      match key.toNat?, bid.toNat?, layer.toNat?, parseLists lists with
+      | some key, some bid, some layer, some ls =>
+          let b : Blob := { id := bid, layer := layer, nbrs := ls, dimOk := dimok == "1", finite := fin == "1" }
+          ({ s with dur := applyWrite s.dur (.node key b) }, "ok")
+      | _, _, _, _ => (s, "bad-op")
+  | ["dids", csv] =>
+      if csv = "none" then ({ s with dur := { s.dur with ids := none } }, "ok")
+      else match natList? csv with
+        | some l => ({ s with dur := applyWrite s.dur (.ids l) }, "ok")
+        | none => (s, "bad-op")
+  | ["dmeta", "none"] => ({ s with dur := { s.dur with metaObj := none } }, "ok")
+  | ["dmeta", eid, el, v, ml, mls, rm] =>
+      match eid.toNat?, el.toNat?, v.toNat?, ml.toNat?, mls.toNat?, natList? rm with
+      | some eid, some el, some v, some ml, some mls, some rm =>
+          ({ s with dur := applyWrite s.dur (.metaPut ⟨(eid, el), v, rm, ml, mls⟩) }, "ok")
+      | _, _, _, _, _, _ => (s, "bad-op")
+  | ["load", pid, pl] =>
+      match pid.toNat?, pl.toNat? with
+      | some pid, some pl =>
+          match load s.dur (pid, pl) with
+          | .ok ix => ({ s with ix := ix }, "ok " ++ showState ix true)
+          | .error _ => (s, "err:load")
+      | _, _ => (s, "bad-op")
   | ["consts"] =>
       (s, s!"MAX_EF_SEARCH={maxEfSearch} SEARCH_MAX_ATTEMPTS={searchMaxAttempts} F32_MAX_KEY={f32MaxKey}")
   | _ => (s, "bad-op")
